@@ -6,13 +6,13 @@ def chk(pid, text, note, technique, ref):
     CHECKS[pid] = dict(text=text, note=note, technique=technique, ref=ref)
 
 chk("C01",
-    "Bounded-exhaustive exploration of the real formatter+parser: every value of a finite universe (all 30 constructors, arity<=3 with duplicates and all insertion orders, one-hole nesting, towers 2..40 deep with the nested child in every position, wide terms, reducible shapes, hash twins, numeric families with every digit count and the neighbours of powers of two and ten, names with one character of every identifier class in every position and truncation aliases of keywords, sentence/task item product with extreme stamps and floats) x 3 formats is formatted (3 routes) and re-parsed, and compared through an independent canonical form; unordered compounds additionally under every distinguishable hash-iteration order of their sets.",
+    "Bounded-exhaustive exploration of the real formatter+parser: every value of a finite universe (all 30 constructors, arity<=3 with duplicates and all insertion orders, one-hole nesting, towers 2..40 deep with the nested child in every position, every constructor triple on one path, wide terms (to 257; 1024 / 1500 / 4097 components, 600 sets, 260 statements, a 4000-statement sequence, 70 000-character names), fat and side-by-side towers, reducible shapes, hash twins, numeric families with every digit count and the neighbours of powers of two and ten, names with one character of every identifier class in every position and truncation aliases of keywords, sentence/task item product with extreme stamps and floats) x 3 formats is formatted (every public formatting route; each route's text on its own) and re-parsed, and compared through an independent canonical form; unordered compounds additionally under every distinguishable hash-iteration order of their sets.",
     "Names limited to the per-format alphabet, nesting<=3 except towers; canonical form and recipes are harness code; hash order owned through the verif_hooks SeededState hook (only the key source changes).",
     "bounded exhaustive enumeration of values x hash-order environments against the real code, reference canonical form as oracle",
     "5/C01")
 
 chk("C02",
-    "Bounded-exhaustive exploration of the real lexical formatter+parser: every lexical value of a finite universe built from each format's own vocabulary (any connecter/arity combination incl. zero components, sets, 13 copulas, one-hole nesting, towers to depth 64 in every child position, reducible shapes, digit strings of every length 1..25 in every numeric slot, sentence/task item product with 0..9 truth/budget entries and every stamp form) x 3 formats, format then parse (3 routes), structural equality.",
+    "Bounded-exhaustive exploration of the real lexical formatter+parser: every lexical value of a finite universe built from each format's own vocabulary (any connecter/arity combination incl. zero components, sets, 13 copulas, one-hole nesting, towers to depth 64 in every child position, reducible shapes, digit strings of every length 1..25 in every numeric slot, sentence/task item product with 0..9 truth/budget entries and every stamp form) x 3 formats, format (every public formatting route, each text on its own) then parse, structural equality.",
     "Derived == on the lexical tree is trusted; names from the per-format alphabet; depth<=2 (3 in thorough).",
     "bounded exhaustive enumeration of lexical values against the real formatter and parser",
     "5/C02")
@@ -74,7 +74,7 @@ chk("C09",
     "deviation-bounded exhaustive enumeration of spacings of well-formed token lists against both real pipelines",
     "5/C09")
 chk("C11",
-    "Every ASCII string printed by the enum formatter (C01 universe) and the lexical formatter (C02 universe, >=1 component) is interpreted with the PEG grammar read from README.md (own pest-semantics interpreter), after all formatting routes were required to print the same text; the kind and the derived tree are compared with the ASCII lexical parser's result; FORMAT_ASCII (enum and lexical) is compared with the OpenNARS lexicon entry by entry.",
+    "Every ASCII string printed by the enum formatter (C01 universe) and the lexical formatter (C02 universe, >=1 component) is interpreted with the PEG grammar read from README.md (own pest-semantics interpreter) - the text of every public formatting route, each on its own; the kind and the derived tree are compared with the ASCII lexical parser's result; FORMAT_ASCII (enum and lexical) is compared with the OpenNARS lexicon entry by entry.",
     "Grammar read as task~EOI | sentence~EOI | term~EOI; Unicode classes from the regex crate; lexicon table is a literal in the harness.",
     "bounded exhaustive enumeration of formatter outputs against an independent reference grammar interpreter",
     "5/C11")
